@@ -2356,3 +2356,22 @@ def _range_len(M, a, info):
         zl, zh = bv(lo, 64), bv(hi, 64)
         return z3.If(z3.ULT(zl, zh), zh - zl, z3.BitVecVal(0, 64))
     return M.I.len_of(r)
+
+
+@model('slice::chunk_by', 'slice::chunk_by_mut')
+def _chunk_by(M, a, info):
+    s = a[0]
+    if type(s) is Ptr: s = _deref(M, [s], info)
+    items = s.items
+    def gen():
+        i = s.start
+        while i < s.end:
+            j = i + 1
+            while j < s.end and M.I.branch(M.call_fn(a[1], [Ptr(items, j - 1), Ptr(items, j)])): j += 1
+            yield Slice(items, i, j)
+            i = j
+    return It(gen())
+
+
+@model('slice::group_by')
+def _group_by(M, a, info): return _chunk_by(M, a, info)
